@@ -27,7 +27,7 @@ ASSUMPTIONS = [
     "values are small integers stored as floats so additive sums are exact in any order (bitwise comparison is sound)",
     "coordinates are integers, as the class documents",
 ]
-PROBES = ["observation_sparse", "observation_end", "integer_dtype_batch", "additive_cancels_to_zero", "dup_in_batch", "overlap_partial", "overlap_all", "overlap_unsorted_ge2", "batch_not_sorted", "additive_fresh_coordinate",
+PROBES = ["observation_sparse", "observation_end", "caller_mutates_arguments_after_add", "caller_mutates_returned_array", "integer_dtype_batch", "additive_cancels_to_zero", "dup_in_batch", "overlap_partial", "overlap_all", "overlap_unsorted_ge2", "batch_not_sorted", "additive_fresh_coordinate",
           "absent_read_rejected", "empty_batch", "value_dim_gt1", "negative_coordinate", "query_with_duplicates"]
 
 
@@ -119,7 +119,15 @@ def run_history_c46(ch, tr: Trace) -> None:
         if additive and not all(in_model):
             tr.probe("additive_fresh_coordinate")
         arg_vals = V[0] if (vdim == 1 and ch.flag()) else V
-        arr.add([np.array(c) for c in coords], arg_vals, additive=additive)
+        handed_coords = [np.array(c) for c in coords]
+        handed_vals = np.array(arg_vals)  # the caller's own array
+        arr.add(handed_coords, handed_vals, additive=additive)
+        if ch.flag(1, 3):
+            # the caller reuses its buffers after the call: stored data must not be aliased with them
+            handed_vals += 1000
+            for hc in handed_coords:
+                hc += 7
+            tr.probe("caller_mutates_arguments_after_add")
         for c, v in zip(coords, vals):
             if additive and c in model:
                 model[c] = model[c] + v
@@ -145,6 +153,9 @@ def run_history_c46(ch, tr: Trace) -> None:
         for j, k in enumerate(q):
             if not np.array_equal(got[:, j], model[k]):
                 raise Violation("get_equals_dict", f"get batch {q}: column {j} = {got[:, j].tolist()}, dict holds {model[k].tolist()}")
+        if ch.flag(1, 3):
+            got += 555  # the caller scribbles on the returned array: stored data must not change
+            tr.probe("caller_mutates_returned_array")
         tr.op("get", "ok", [list(k) for k in q], changing=False)
 
     def op_get_absent():
